@@ -53,6 +53,14 @@ func GenerateIndexing(t *rapid.T, kind string, use func(string) bool) *Program {
 			g.p.Funcs = append(g.p.Funcs, pf)
 		}
 	}
+	// opaque identities of wide / unsigned index types (dynamic arrays and strings only: a fixed
+	// array demands a compile-time constant index)
+	i64t, u32t, u64t := IntT(64, true), IntT(32, false), IntT(64, false)
+	if kind != "fixed" {
+		for _, wt := range []*Type{i64t, u32t, u64t} {
+			g.p.Funcs = append(g.p.Funcs, &Func{Name: "id_" + wt.String(), Ret: wt, Params: []Param{{Name: "x", T: wt}}, Body: []Stmt{&Return{X: &Var{T: wt, Name: "x"}}}})
+		}
+	}
 	var mayFail *Func
 	f := &Func{Name: "s0"}
 	arr := "arr"
@@ -93,7 +101,33 @@ func GenerateIndexing(t *rapid.T, kind string, use func(string) bool) *Program {
 	f.Body = append(f.Body, &Let{Name: "flag", T: TBool, Init: &Bin{T: TBool, Op: ">", L: &Var{T: IntT(64, true), Name: "canary1"}, R: &Lit{T: IntT(64, true), I: big.NewInt(int64(g.intRange(0, 1, "flagv")) * 2000000000)}}})
 	arrVar := func() Expr { return &Var{T: at, Name: arr} }
 	idxExpr := func(label string) Expr {
-		switch g.intRange(0, 8, label+"_k") {
+		switch g.intRange(0, 9, label+"_k") {
+		case 9:
+			// an index of a 64-bit or unsigned 32-bit type, possibly far outside the i32 range
+			if kind == "fixed" {
+				g.use("index.literal")
+				return &Lit{T: i32, I: big.NewInt(idxLit(label))}
+			}
+			j := idxLit(label)
+			wt := rapid.SampledFrom([]*Type{i64t, i64t, u32t, u64t}).Draw(t, label+"_wt")
+			v := big.NewInt(j)
+			if g.chance(3, label+"_far") {
+				// far outside: must be refused, not truncated to a small index
+				off := new(big.Int).Lsh(big.NewInt(1), 32)
+				if wt.Signed && g.chance(2, label+"_farneg") {
+					v.Sub(v, off)
+				} else {
+					v.Add(v, off)
+				}
+				g.use("index.wide_type_far_out_of_range")
+			}
+			if lo, hi := wt.Range(); v.Cmp(lo) < 0 || v.Cmp(hi) > 0 {
+				// (negative value for an unsigned type: use the all-ones pattern region instead)
+				v = new(big.Int).Sub(hi, big.NewInt(int64(g.intRange(0, 2, label+"_top"))))
+				g.use("index.wide_type_far_out_of_range")
+			}
+			g.use("index.wide_type")
+			return &Call{T: wt, Fn: "id_" + wt.String(), Args: []Expr{&Lit{T: wt, I: v}}}
 		case 8:
 			// constant arithmetic that wraps around in its 8-bit type: (250 + d) mod 256 is the index
 			j := idxLit(label)
@@ -174,7 +208,12 @@ func GenerateIndexing(t *rapid.T, kind string, use func(string) bool) *Program {
 				if kind == "dyn" {
 					a = &Borrow{T: &Type{K: KRef, Elem: at}, X: arrVar()}
 				}
-				f.Body = append(f.Body, &Print{Args: []Expr{&Call{T: et, Fn: "getat", Args: []Expr{a, idxExpr(lab)}}}})
+				ix := idxExpr(lab)
+				if !ix.Type().Equal(i32) {
+					// the helper's index parameter is an i32
+					ix = &Lit{T: i32, I: big.NewInt(idxLit(lab))}
+				}
+				f.Body = append(f.Body, &Print{Args: []Expr{&Call{T: et, Fn: "getat", Args: []Expr{a, ix}}}})
 				g.use("index.parameter")
 			}
 		case 9: // copy of a fixed array, then access the copy
